@@ -113,7 +113,7 @@ Proof.
   destruct was; [|reflexivity].
   rewrite !is_nil_nil_like. cbn [nil_like].
   destruct v as [ |nm b|k nm z|w nm f|nm s|d0|tg|t n xs|t xs|kt vt n kvs|fs|n|n]; try reflexivity;
-    try (exfalso; revert E; unfold convert_number_check, deref1, rkind; cbn;
+    try (exfalso; revert E; unfold convert_number_check, convert_number_check_base, deref1, rkind; cbn;
          repeat match goal with |- context [if ?b then _ else _] => destruct b end; cbn; congruence).
   destruct tg as [g|]; [reflexivity|vm_compute in E; discriminate E].
 Qed.
@@ -499,7 +499,7 @@ Lemma isempty_numeral_string k inv us nm s d orig :
 Proof.
   intros Hd. destruct (predicates_in_queries k inv us (VStr nm s) orig) as [_ [_ [H _]]]. rewrite H.
   assert (Hc : convert_number (VStr nm s) = VDec d).
-  { unfold convert_number, convert_number_check.
+  { unfold convert_number, convert_number_check, convert_number_check_base.
     assert (Hv : (if is_empty_value (value_of (VStr nm s)) then value_of (VStr nm s)
                   else deref1 (value_of (VStr nm s))) = value_of (VStr nm s))
       by (destruct (is_empty_value _); reflexivity).
